@@ -271,6 +271,49 @@ theorem zSet_keys (z : List (Str × Route)) (k : Str) (v : Route) :
       · simp [hm]
       · simp [hm]
 
+/-! ## The table as a finite map: updates of different keys commute -/
+
+theorem zGet_zSet (z : List (Str × Route)) (k : Str) (v : Route) (q : Str) :
+    zGet (zSet z k v) q = if k = q then some v else zGet z q := by
+  induction z with
+  | nil => simp [zSet, zGet]
+  | cons x xs ih =>
+    obtain ⟨k', v'⟩ := x
+    simp only [zSet]
+    by_cases hk : k' = k
+    · subst hk
+      simp only [if_true, zGet]
+      by_cases hq : k' = q <;> simp [hq]
+    · simp only [hk, if_false, zGet, ih]
+      by_cases hq : k' = q
+      · subst hq
+        have : ¬ k = k' := fun h => hk h.symm
+        simp [this]
+      · simp [hq]
+
+theorem zGet_zErase (z : List (Str × Route)) (k q : Str) (hnd : (z.map (·.1)).Nodup) :
+    zGet (zErase z k) q = if k = q then none else zGet z q := by
+  induction z with
+  | nil => simp [zErase, zGet]
+  | cons x xs ih =>
+    obtain ⟨k', v'⟩ := x
+    simp only [List.map_cons, List.nodup_cons] at hnd
+    have ih' := ih hnd.2
+    simp only [zErase] at ih' ⊢
+    by_cases hk : k' = k
+    · subst hk
+      simp only [List.filter_cons, ne_eq, not_true_eq_false, decide_false, Bool.false_eq_true, if_false, ih', zGet]
+      by_cases hq : k' = q
+      · simp [hq]
+      · simp [hq]
+    · have hk2 : decide (k' ≠ k) = true := by simpa using hk
+      simp only [List.filter_cons, hk2, if_true, zGet, ih']
+      by_cases hq : k' = q
+      · subst hq
+        have : ¬ k = k' := fun h => hk h.symm
+        simp [this]
+      · simp [hq]
+
 theorem wf_init : WF {} := by simp [WF]
 
 theorem wf_handle {r r' : Router} {pattern : Str} {h : Option Handler} (hwf : WF r)
